@@ -517,6 +517,8 @@ def tree_wire(t):
         return "N:" + t[1]
     if t[0] == "el":
         return wire_operand(t[2], t[1])
+    if t[0] == "agg":                     # an aggregate operator as operand
+        return f"AG|{t[1]}|{wire_operand(t[3], t[2])}"
     if t[0] == "neg":                     # Element.__neg__: (-1), Operator.__neg__: (-1.0)
         return "O nmul " + tree_wire(t[1]) + (" N:-1" if t[1][0] == "el" else " N:-1.0")
     _, form, a, b = t
@@ -527,6 +529,8 @@ def tree_wire(t):
 def tree_leaves(t, acc):
     if t[0] == "el":
         acc[t[1]] = t[2]
+    elif t[0] == "agg":
+        acc[t[2]] = t[3]
     elif t[0] == "neg":
         tree_leaves(t[1], acc)
     elif t[0] == "op":
@@ -535,7 +539,7 @@ def tree_leaves(t, acc):
 
 
 def tree_depth(t):
-    if t[0] in ("num", "el"):
+    if t[0] in ("num", "el", "agg"):
         return 0
     return 1 + (tree_depth(t[1]) if t[0] == "neg" else max(tree_depth(t[2]), tree_depth(t[3])))
 
@@ -545,6 +549,8 @@ def tree_show(t):
         return t[1]
     if t[0] == "el":
         return t[1]
+    if t[0] == "agg":
+        return f"{t[2]}.arr_{t[1]}()"
     if t[0] == "neg":
         return "-" + tree_show(t[1])
     if t[1] == "dot":
@@ -557,6 +563,11 @@ def tree_build(t, els):
         return int(t[1]) if "." not in t[1] and "e" not in t[1] else float(t[1])
     if t[0] == "el":
         return els[t[1]]
+    if t[0] == "agg":
+        a, k = els[t[2]], t[1].split(":")
+        f = {"sum": a.arr_sum, "prod": a.arr_prod, "mean": a.arr_mean, "median": a.arr_median,
+             "std": a.arr_stddev, "size": a.arr_size}.get(k[0])
+        return f() if f else a.arr_rank(int(k[1]))
     if t[0] == "neg":
         return -tree_build(t[1], els)
     return apply_form(t[1], tree_build(t[2], els), tree_build(t[3], els))
@@ -577,6 +588,9 @@ def spec_tree(t, vals):
     if t[0] == "el":
         d = t[2]
         return shape_of(d), bool(is_arr(d) and d[3]), {k: np.float64(v) for k, v in vals[t[1]].items()}
+    if t[0] == "agg":
+        with np.errstate(all="ignore"):
+            return (), False, {(): np.float64(spec_agg(t[1], t[3], vals[t[2]]))}
     if t[0] == "neg":
         sh, nm, v = spec_tree(t[1], vals)
         return sh, nm, {k: -x for k, x in v.items()}
@@ -644,7 +658,11 @@ class TGen:
             shape = r.choice([(), (1,), (2,), (3,), (1, 2), (2, 1), (2, 2), (2, 3)])
             named = r.chance(1, 4) and shape != ()
         if shape == ():
-            c = r.below(3)
+            c = r.below(4 if not el_only else 3)
+            if c == 3:                              # an aggregate operator as a scalar-valued operand
+                d = r.choice([d_vec(2), d_vec(3), d_mat(2, 2), d_mat(2, 3), d_nvec("ab")])
+                g = r.choice(["sum", "prod", "mean", "median", "std", "size", "rank:1", "rank:2", "rank:9"])
+                return ("agg", g, f"g{len(d[1])}x{len(d[2])}{'n' if d[3] else ''}_{r.below(2)}", d)
             if c == 0 and not el_only:              # numbers have no .dot
                 return ("num", r.choice(["2.0", "-1.5", "0.5", "3"]))
             return ("el", "s" + str(r.below(2)), d_scalar())
@@ -1157,6 +1175,58 @@ def make_history(seq, salt=0):
     return ops
 
 
+# ------------------------------------------------------------------ wave 6: probe table of resolve_dimensions
+DIM_LEAVES = [(0, 0)] + [(m, 0) for m in (1, 2, 3)] + [(m, n) for m in (1, 2, 3) for n in (1, 2, 3)]
+DIM_NESTED = [("sum", 2, 0), ("sum", 3, 0), ("sum", 2, 2), ("sum", 2, 3), ("mv", 2, 3), ("mv", 3, 2)]
+DIM_CLASSES = ["AdditionOperator", "SubtractionOperator", "MultiplicationOperator", "DivisionOperator",
+               "NumericalMultiplicationOperator", "DotOperator"]          # = formOfNat 0..5
+
+
+def _dim_leaf(m_, name, mn):
+    e = m_.converter(name)
+    if mn[0] == 0:
+        e.equation = 1.5
+    elif mn[1] == 0:
+        e.setup_vector(mn[0], [1.0] * mn[0])
+    else:
+        e.setup_matrix([mn[0], mn[1]], [[1.0] * mn[1] for _ in range(mn[0])])
+    return e
+
+
+def _dim_operand(m_, name, code):
+    if code[0] == "leaf":
+        return _dim_leaf(m_, name, code[1:])
+    if code[0] == "sum":
+        return _dim_leaf(m_, name + "1", code[1:]) + _dim_leaf(m_, name + "2", code[1:])
+    return _dim_leaf(m_, name + "1", (code[1], code[2])).dot(_dim_leaf(m_, name + "2", (code[2], 0)))
+
+
+def probe_dims_table():
+    """rows (class index, code a, code b, accepted) of the REAL constructors + resolve_dimensions(): every pair of
+    leaf shapes up to 3x3 for each of the six operator classes, and one nesting level on either side"""
+    import BPTK_Py.sddsl.operators as ops
+    leaves = [("leaf",) + mn for mn in DIM_LEAVES]
+    pairs = [(a, b) for a in leaves for b in leaves]
+    pairs += [(a, b) for a in DIM_NESTED for b in leaves] + [(a, b) for a in leaves for b in DIM_NESTED]
+    rows = []
+    for ci, cname in enumerate(DIM_CLASSES):
+        cls = getattr(ops, cname)
+        for a, b in pairs:
+            m_ = new_model()
+            try:
+                oa, ob = _dim_operand(m_, "A", a), _dim_operand(m_, "B", b)
+                cls(oa, ob).resolve_dimensions()
+                acc = True
+            except Exception:
+                acc = False
+            rows.append((ci, a, b, acc))
+    return rows
+
+
+def lean_code(c):
+    return f"(.leaf {c[1]} {c[2]})" if c[0] == "leaf" else f"(.{c[0]} {c[1]} {c[2]})"
+
+
 # ------------------------------------------------------------------ probes and Gen file
 def probe():
     facts = {}
@@ -1182,15 +1252,37 @@ def probe():
                                                        and (list(x.index), list(inner.index)) == before)
     except Exception:
         facts["arrayed_term_reclones_every_level"] = False
+    # DimCfg.checkEw: resolve_dimensions of every element-wise class compares the dimensions of two arrays
+    import BPTK_Py.sddsl.operators as ops
+    chk_ = True
+    for cname in DIM_CLASSES[:5]:
+        m = new_model()
+        try:
+            getattr(ops, cname)(_dim_leaf(m, "A", (2, 2)), _dim_leaf(m, "B", (2, 3))).resolve_dimensions()
+            chk_ = False
+        except Exception:
+            pass
+    facts["elementwise_dimensions_compared"] = chk_
     return facts
 
 
-def gen_lean(facts):
+def gen_lean(facts, dim_rows=()):
+    rows = ",\n  ".join(f"({ci}, {lean_code(a)}, {lean_code(b)}, {'true' if acc else 'false'})" for ci, a, b, acc in dim_rows)
+    ck = "true" if facts.get("elementwise_dimensions_compared") else "false"
+    dims_part = (f"/-- probed: resolve_dimensions of the element-wise classes {'compares' if ck == 'true' else 'does NOT compare'} the dimensions of two arrays -/\n"
+                 f"def dimCfg : DimCfg := {{ checkEw := {ck} }}\n"
+                 + ("theorem rejects_holds : C10_rejects dimCfg := C10_rejects_of_good dimCfg (by decide)\n#print axioms rejects_holds\n" if ck == "true" else
+                    "theorem rejects_violated : ¬ C10_rejects dimCfg := C10_rejects_witness dimCfg (by decide)\n#print axioms rejects_violated\n")
+                 + "/-- accept / reject of the REAL constructors + resolve_dimensions() for every pair of leaf shapes up to 3x3 and one\n"
+                   "nesting level on either side, per operator class (0..5 = + - * / number* dot): the model decides every row the same way -/\n"
+                 f"def dimsTable : List (Nat × OpCode × OpCode × Bool) := [\n  {rows}]\n"
+                 "theorem dims_table_ok : dimsTable.all (rowOK dimCfg) = true := by decide +kernel\n")
     return ("import Bptk.Props.C10\n/-! GENERATED by harness/props/c10.py on every run — do not edit.\n"
             f"probed mechanism facts: {facts} -/\n"
             "namespace Bptk.C10.Gen\nopen Bptk.C10 Bptk.Py\n"
             "theorem holds : C10_full := C10_full_holds\n#print axioms holds\n"
             "theorem holds_wave2 : C10_wave2 := C10_wave2_holds\n#print axioms holds_wave2\n"
+            + dims_part
             + ("/-- probed: arrayed_term re-clones the operand with the asked index at every level -/\n"
                "def cfg : Cfg := { reindexAll := true }\n"
                "theorem holds_nested : C10_nested_full cfg := C10_nested_full_of_good cfg (by decide)\n#print axioms holds_nested\n"
@@ -1221,7 +1313,9 @@ def run(chk):
     quiet_bptk_logging()
     facts = probe()
     chk.notes["probes"] = facts
-    ok, why = chk.prove(gen_lean(facts), extra_sources=["Bptk/Core/PyFrag.lean", "Bptk/Proofs/PyFrag.lean"])
+    dim_rows = probe_dims_table()
+    chk.cov["dims_probe_table"] = {"rows": len(dim_rows), "accepted": sum(r[3] for r in dim_rows)}
+    ok, why = chk.prove(gen_lean(facts, dim_rows), extra_sources=["Bptk/Core/PyFrag.lean", "Bptk/Proofs/PyFrag.lean"])
     K = 3 if chk.quick else 4
     chk.cov["trusted_base"] = [
         "Lean 4.33 kernel; axioms propext, Classical.choice, Quot.sound (audited per run via #print axioms)",
@@ -1416,7 +1510,7 @@ def run(chk):
         t = tg.expr(shape, rngt.range(2, 3 if chk.quick else 4), named=(len(shape) >= 1 and rngt.chance(1, 6)))
         if t[0] == "op" or (t[0] == "neg" and t[1][0] != "el"):
             trees.append(t)
-    ndist = {"exhaustive_depth2": n_exh, "random_typed": len(trees) - n_exh, "accepted": 0, "accepted_depth": {}, "must_reject": 0, "with_dot": 0}
+    ndist = {"exhaustive_depth2": n_exh, "random_typed": len(trees) - n_exh, "accepted": 0, "accepted_depth": {}, "must_reject": 0, "with_dot": 0, "with_aggregate_operand": 0}
     stock_pool = []
     for ti, t in enumerate(trees):
         try:
@@ -1441,6 +1535,7 @@ def run(chk):
             ndist["accepted"] += 1
             ndist["accepted_depth"][dep] = ndist["accepted_depth"].get(dep, 0) + 1
             ndist["with_dot"] += "dot" in txt
+            ndist["with_aggregate_operand"] += "arr_" in txt
             if exp is not None:
                 dd = compare_values(got, {k: float(v) for k, v in exp.items()}, exact=False)
                 if dd is not None:
